@@ -408,9 +408,6 @@ func runCase(run sink, prun *ev.Run, i int, caseID string) {
 			}
 			for id := uint64(1); id <= upTo; id++ {
 				if !seen[id] {
-					if violate != "" {
-						continue // after a protocol violation the receive side stops: nothing is demanded
-					}
 					problem("operation-lost", fmt.Sprintf("operation %d was queued (Q returned) but is neither pending nor represented by a result", id))
 					return
 				}
